@@ -6,15 +6,17 @@
 (* mechanism transcription against the same clauses.                                   *)
 EXTENDS Integers, Sequences, FiniteSets, TLC
 
-Probes == {"p1", "p2", "p3", "p4", "p5", "p6", "bad", "bad2"}
+Probes == {"p1", "p2", "p3", "p4", "p5", "p6", "p7", "p8", "p9", "bad", "bad2"}
 Valid(p) == p \notin {"bad", "bad2"}
 Fns == {"f", "g"}
 \* functions a probe's selector names (they are instrumented while the probe is active)
-Touches(p) == CASE p \in {"p1", "p2", "p5", "bad"} -> {"f"}
+Touches(p) == CASE p \in {"p1", "p2", "p5", "p7", "p8", "p9", "bad"} -> {"f"}
                 [] p \in {"p3", "p6"} -> {"f", "g"}
                 [] p \in {"p4", "bad2"} -> {"g"}
 
-\* lifeworld: f(x): a = x+1; b = 2a; r = g(b); return r      g(y): a = y+100; return a
+\* lifeworld: f(x): a = x+1; b = 2a; c: @T = x; c = c+1; r = g(b); return r      g(y): a = y+100; return a
+\* p7 = 'f > c:@T' (only the annotated binding of c), p8 = 'f > c' (both bindings),
+\* p9 = 'f(a as ta)' in total mode whose listener raises KeyError for ta = 13 (the call f(12))
 RetOf(fn, v) == IF fn = "f" THEN 2 * v + 102 ELSE v + 100
 \* events (records as sets of <<key, value>>) that one call owes to probe p, in order
 EventsOf(p, fn, v) ==
@@ -25,7 +27,13 @@ EventsOf(p, fn, v) ==
     [] p = "p4" /\ fn = "g" -> << {<<"a", v + 100>>} >>
     [] p = "p5" /\ fn = "f" -> << {<<"a", v + 1>>, <<"b", 2 * v + 2>>} >>
     [] p = "p6" /\ fn = "f" -> << {<<"a", 2 * v + 102>>} >>      \* f > g > a : f is only a waypoint
+    [] p = "p7" /\ fn = "f" -> << {<<"c", v>>} >>
+    [] p = "p8" /\ fn = "f" -> << {<<"c", v>>}, {<<"c", v + 1>>} >>
+    [] p = "p9" /\ fn = "f" -> << {<<"ta", v + 1>>} >>
     [] OTHER -> <<>>
+
+\* a listener that raises: the exception reaches the caller of the probed function, nothing else changes
+ListenerRaises(act, fn, v) == "p9" \in act /\ fn = "f" /\ v = 12
 
 \* abstract state: status[p] \in {"new", "active", "done"}, expect[p] = events owed so far
 Active(status) == {p \in Probes : status[p] = "active"}
